@@ -369,6 +369,30 @@ def specLookup (recs : List (Bytes × Nat)) (path : Bytes) (out : LookupOut) : B
         | some vs => vs.any (·.isEmpty)
         | none => true
 
+/-! ## `denco.Mux` (server.go): one router per method, methods compared as spelled -/
+
+/-- the records `Mux.Build` files under one method: `(path, index of the handler)` -/
+def muxRecords (handlers : List (Bytes × Bytes)) (method : Bytes) : List (Bytes × Nat) :=
+  handlers.zipIdx.filterMap fun (h, i) => if h.1 == method then some (h.2, i) else none
+
+def muxMethods (handlers : List (Bytes × Bytes)) : List Bytes := (handlers.map (·.1)).eraseDups
+
+inductive MuxOut where
+  | handled (handler : Nat) (names vals : List Bytes)
+  | notFound                 -- the `NotFound` handler
+  | buildError               -- `Mux.Build` returned an error (some method's table was refused)
+deriving Repr, DecidableEq, BEq
+
+/-- `Mux.Build` followed by `serveMux.handler(method, path)` -/
+def muxServe (handlers : List (Bytes × Bytes)) (method path : Bytes) : MuxOut :=
+  if (muxMethods handlers).any (fun m => match build (muxRecords handlers m) with | .ok _ => false | _ => true) then
+    .buildError
+  else if (muxMethods handlers).contains method then
+    match route (muxRecords handlers method) path with
+    | .inl (.found v names vals) => .handled v names vals
+    | _ => .notFound
+  else .notFound
+
 /-! ## Driver entry -/
 
 def renderOut : LookupOut → String
@@ -404,6 +428,33 @@ def run (ins outs : List String) : Verdict :=
         | none =>
           { agree := false, specOk := false, tag := "panic-or-error", model := renderOut m }
     | _, _ => .bad "L fields"
+  | ["M", methods, paths, method, path] =>
+    match decList methods, decList paths, decField method, decField path with
+    | some ms, some ps, some m, some p =>
+      if ms.length != ps.length then .bad "M handlers" else
+      let handlers := ms.zip ps
+      let mo := muxServe handlers m p
+      let render : MuxOut → String
+        | .handled v ns vs => s!"H {v} {encList ns} {encList vs}"
+        | .notFound => "N"
+        | .buildError => "E"
+      -- Spec: the handler that runs is registered under exactly the request's method and its
+      -- pattern satisfies the router specification for that method's table
+      let specOk := match outs with
+        | ["H", v, ns, vs] =>
+          (match v.toNat?, decList ns, decList vs with
+           | some v, some ns, some vs =>
+             (match handlers[v]? with
+              | some h => h.1 == m && specLookup (muxRecords handlers m) p (.found v ns vs)
+              | none => false)
+           | _, _, _ => false)
+        | ["N"] => !(muxMethods handlers).contains m || specLookup (muxRecords handlers m) p .notFound
+        | ["E"] => mo == .buildError
+        | _ => false
+      { agree := render mo == " ".intercalate outs, specOk := specOk,
+        tag := (match mo with | .handled _ ns _ => s!"mux:handled{ns.length.min 2}" | .notFound => "mux:notfound" | .buildError => "~mux:builderr"),
+        model := render mo }
+    | _, _, _, _ => .bad "M fields"
   | _ => .bad "C05 stream"
 
 end RtVerif.C05
